@@ -389,6 +389,19 @@ def wrapper_store_modes():
     return out
 
 
+def private_copy_skips_tuples():
+    """`_private_copy` (multified_wrappers.py) deep-copies the value when `isinstance(value, (<kinds>))`: True when the
+    kinds do not include `tuple` (a tuple holding mutable elements is then stored as given); None without the helper"""
+    fn = _find_fn(_parse("fields/multified_wrappers.py"), "_private_copy")
+    if fn is None:
+        return None
+    tests = [n for n in ast.walk(fn) if isinstance(n, ast.Call) and isinstance(n.func, ast.Name) and n.func.id == "isinstance"
+             and len(n.args) == 2 and isinstance(n.args[0], ast.Name) and n.args[0].id == "value"]
+    if not tests:
+        return None
+    return not any("tuple" in ast.unparse(t.args[1]) for t in tests)
+
+
 def coll_store_modes():
     """{(kind, "typed" | "untyped"): mode} for Set / ImmutableSet / Tuple `__set__` (the collections without a typed
     wrapper class): is what is finally stored still the parameter object on some non-trusted path?"""
@@ -561,10 +574,16 @@ def ast_readings():
                 out[(op, kind, cat)] = "rebuild" if copies else "alias"
     # what the multi-field wrappers' `__set__` finally stores (visible where the option is a container: the rows of
     # scalar / by-reference options show the option's behaviour, not the wrapper's)
+    skips = private_copy_skips_tuples()
     for kind, m in wrapper_store_modes().items():
         for op in ("construct", "setattr"):
             for cat in (("untyped",) if kind == "notF" else ("coll", "inline", "wrap")):
                 out[(op, kind, cat)] = m
+            if kind in ("oneOf", "allOf"):
+                # the wrapper stores `_private_copy(instance, value)`: a copy of "the mutable kinds" — is a tuple one of them?
+                out[(op, kind, "tupl")] = "alias" if (m == "alias" or skips) else m
+            elif kind == "anyOf":
+                out[(op, kind, "tupl")] = m
     # Set / ImmutableSet / Tuple `__set__`
     for (kind, typed), m in coll_store_modes().items():
         cats = ("untyped",) if typed == "untyped" else ("number", "string", "scalar", "any", "coll", "struct", "inline", "wrap")
@@ -624,8 +643,9 @@ def probe_row(op, kind, cat, impl, node_path):
         row["returns"] = "raises"
         return row
     paths = [list(p) for p in impl.get("shared_paths", [])]
-    node_shared = node_path in paths
     below = _descendant_shared(paths, node_path)
+    # (a tuple / frozenset handed on as it is, is no mutable object itself: it counts when something below it is shared)
+    node_shared = node_path in paths or (below and node_path in [list(p) for p in impl.get("shared_all_paths", [])])
     leaf_site = kind in ("any", "owner", "misfit", "document", "mapping", "names", "required", "enumValues", "default", "schema",
                          "fieldState")
     is_input = op in ("construct", "setattr", "deserialize", "derive")
@@ -677,7 +697,7 @@ def probe_all():
     from harness.suites import alias as S
     rows = []
     inner_site = {"any": ("any", "none"), "struct": ("struct", "none"), "inline": ("inline", "none"),
-                  "coll": ("array", "untyped"), "wrap": ("anyOf", "coll")}
+                  "coll": ("array", "untyped"), "wrap": ("anyOf", "coll"), "tupl": ("tuplePos", "none")}
     done_all = {}
     for op in S.FIELD_OPS:
         # top-level site of the operation
